@@ -13,6 +13,10 @@
 (*   "TYPED"  g, node types xi / zeta and a table tab on type pairs        *)
 (*   "TIMING" g, a duration per node and a delay per ordered neighbour     *)
 (*            pair (ticks; INF stands for float('Inf'))                    *)
+(*   "DRULE" / "DTYPED" / "DTIMING"  the same three rule families on a     *)
+(*            DIRECTED contact network g (arc u -> v present or not,       *)
+(*            independently per ordered pair; the neighbours of u are its  *)
+(*            successors): only an arc of g can become an arc of H         *)
 (* HOf is the percolated digraph the documentation promises: it has g's    *)
 (* node set and u -> v exactly when the rule says u transmits to v.        *)
 (*                                                                         *)
@@ -71,9 +75,9 @@ NEdges(A) == Cardinality({pr \in Node \X Node : pr[1] < pr[2] /\ pr[2] \in A[pr[
 HOf(k, s) ==
   CASE k = "DG"     -> s
     [] k = "BOND"   -> s.kept
-    [] k = "RULE"   -> [u \in Node |-> {v \in s.g[u] : s.t[<<u, v>>]}]
-    [] k = "TYPED"  -> [u \in Node |-> {v \in s.g[u] : s.tab[<<s.xi[u], s.zeta[v]>>]}]
-    [] k = "TIMING" -> [u \in Node |-> {v \in s.g[u] : s.delay[<<u, v>>] <= s.dur[u]}]
+    [] k \in {"RULE", "DRULE"}     -> [u \in Node |-> {v \in s.g[u] : s.t[<<u, v>>]}]
+    [] k \in {"TYPED", "DTYPED"}   -> [u \in Node |-> {v \in s.g[u] : s.tab[<<s.xi[u], s.zeta[v]>>]}]
+    [] k \in {"TIMING", "DTIMING"} -> [u \in Node |-> {v \in s.g[u] : s.delay[<<u, v>>] <= s.dur[u]}]
 
 -----------------------------------------------------------------------------
 (* reachability, components, admissible answers                             *)
@@ -123,6 +127,16 @@ InitTyped   == \E E \in SUBSET UPairs : \E x, z \in [Node -> Types] :
 InitTiming  == \E E \in SUBSET UPairs : \E d \in [Node -> Vals] :
                    \E dl \in [DirEdges(GraphOf(E)) -> Vals] :
                        Start("TIMING", [g |-> GraphOf(E), dur |-> d, delay |-> dl])
+\* directed contact networks: every loop-free arc set
+DArcs == {pr \in Node \X Node : pr[1] # pr[2]}
+InitDRule   == \E D \in SUBSET DArcs :
+                   \E T \in [D -> BOOLEAN] : Start("DRULE", [g |-> AdjOf(D), t |-> T])
+InitDTyped  == \E D \in SUBSET DArcs : \E x, z \in [Node -> Types] :
+                   \E T \in [Types \X Types -> BOOLEAN] :
+                       Start("DTYPED", [g |-> AdjOf(D), xi |-> x, zeta |-> z, tab |-> T])
+InitDTiming == \E D \in SUBSET DArcs : \E d \in [Node -> Vals] :
+                   \E dl \in [D -> Vals] :
+                       Start("DTIMING", [g |-> AdjOf(D), dur |-> d, delay |-> dl])
 InitGiven   == \E sc \in Given : Start(sc[1], sc[2])
 
 Compose == {<<pq[1][1], pq[2][2]>> : pq \in {x \in R \X R : x[1][2] = x[2][1]}}
@@ -189,7 +203,12 @@ BondNormalised ==
         SumW(SUBSET EdgeSet(src.g), src.g, src.p) = Pow(src.p[2], NEdges(src.g))
 
 \* the percolated digraph has g's nodes and only (directed versions of) g's edges
-RuleOK == kind \in {"RULE", "TYPED", "TIMING"} => \A u \in Node : adj[u] \subseteq src.g[u]
+RuleOK == kind \in {"RULE", "TYPED", "TIMING", "DRULE", "DTYPED", "DTIMING"} =>
+              \A u \in Node : adj[u] \subseteq src.g[u]
+\* the undirected families have a symmetric contact network; the directed ones need not
+ContactOK == /\ kind \in {"RULE", "TYPED", "TIMING", "BOND"} => Symmetric(src.g)
+             /\ kind \in {"RULE", "DRULE"} => DOMAIN src.t = DirEdges(src.g)
+             /\ kind \in {"TIMING", "DTIMING"} => DOMAIN src.delay = DirEdges(src.g)
 
 \* agreement with the independent fixpoint formulation
 ClassR(u) == {v \in Node : <<u, v>> \in R /\ <<v, u>> \in R}
